@@ -33,6 +33,9 @@ def stepClient (st : State) : Op → Client → Client
     else c
   | .newFramebuffer w h bpp tok => newFbClient st.scr w h bpp tok
   | .update id => fun c => if c.id == id then (updateClient st.scr c).1 else c
+  | .updateFail id => fun c => if c.id == id then updateClientFail st.scr c else c
+  | .updateExtFail id => fun c => if c.id == id then (updateClient st.scr c).1 else c
+  | .drop id => fun c => if c.id == id then closeClient c else c
 
 /-- the connection an operation adds -/
 def stepNew (st : State) : Op → List Client
@@ -52,7 +55,7 @@ theorem step_clients (st : State) (op : Op) :
   | newClient id =>
     simp only [step, stepClient, stepNew]
     split <;> simp
-  | setEncodings | setPixelFormat | setScale | request | update =>
+  | setEncodings | setPixelFormat | setScale | request | update | updateFail | updateExtFail | drop =>
     simp [step, stepClient, stepNew, modClient]
   | pointer id x y =>
     simp only [step, stepClient, stepNew]
@@ -113,6 +116,14 @@ theorem stepClient_id (st : State) (op : Op) (c : Client) : (stepClient st op c)
     simp only [stepClient]; split <;> simp [(request_flags st.scr c incr x y w h).1]
   | newFramebuffer w h bpp tok => exact newFbClient_id _ _ _ _ _ c
   | update id => simp only [stepClient]; split <;> simp [updateClient_id]
+  | updateExtFail id => simp only [stepClient]; split <;> simp [updateClient_id]
+  | updateFail id =>
+    simp only [stepClient]
+    split
+    · unfold updateClientFail
+      split <;> simp [closeClient, updateClient_id]
+    · rfl
+  | drop id => simp only [stepClient]; split <;> rfl
   | setDesktopSize id w h ns hook =>
     simp only [stepClient]
     split
@@ -157,16 +168,31 @@ theorem pred_step (id : Nat) (F : Client → Prop) (st : State) (op : Op)
           exact absurd (getClient_isSome_of_mem hex) hn
       | _ => simp [stepNew] at hd
 
-/-- the messages a step sends to client `id`: only its own update or its own SetScale produce any -/
+/-- the messages a step sends to client `id`: only its own update (possibly the variant in which the
+screen hook would fail but no extended size message is due) or its own SetScale produce any -/
 theorem step_msgs {st : State} {op : Op} {id : Nat} {m : Msg} (h : (id, m) ∈ (step st op).2.msgs) :
-    (∃ c, getClient st id = some c ∧ op = .update id ∧ (id, m) ∈ (updateClient st.scr c).2.msgs) ∨
+    (∃ c, getClient st id = some c ∧ (op = .update id ∨ (op = .updateExtFail id ∧ extFails c = false)) ∧
+      (id, m) ∈ (updateClient st.scr c).2.msgs) ∨
     (∃ c k, getClient st id = some c ∧ op = .setScale id k ∧ (setScale st.scr c k).2 = some m) := by
+  have own : ∀ (id' : Nat) (c : Client), getClient st id' = some c →
+      (id, m) ∈ (updateClient st.scr c).2.msgs → id = id' := by
+    intro id' c hc hm
+    have hid : c.id = id' := (getClient_some hc).2
+    rcases updateClient_msgs st.scr c with ⟨h0, _⟩ | ⟨_, _, h1, _⟩ | ⟨_, _, cs, cp, rs, h1⟩
+    · rw [h0] at hm; simp at hm
+    · rw [h1] at hm
+      simp only [List.mem_singleton, Prod.mk.injEq] at hm
+      rw [hm.1, hid]
+    · rw [h1] at hm
+      simp only [List.mem_singleton, Prod.mk.injEq] at hm
+      rw [hm.1, hid]
   cases op with
   | newClient id' => simp only [step] at h; split at h <;> simp at h
-  | setEncodings | setPixelFormat | request | newFramebuffer | copy => simp [step] at h
+  | setEncodings | setPixelFormat | request | newFramebuffer | copy | drop => simp [step] at h
   | setDesktopSize => simp only [step] at h; split at h <;> simp at h
   | pointer => simp only [step] at h; split at h <;> simp at h
   | mark => simp only [step] at h; split at h <;> simp at h
+  | updateFail => simp only [step] at h; split at h <;> simp at h
   | setScale id' k =>
     simp only [step] at h
     split at h
@@ -179,20 +205,20 @@ theorem step_msgs {st : State} {op : Op} {id : Nat} {m : Msg} (h : (id, m) ∈ (
     simp only [step] at h
     split at h
     · rename_i c hc
-      -- the only sender id used is the client's own
-      have hid : c.id = id' := (getClient_some hc).2
-      rcases updateClient_msgs st.scr c with ⟨h0, _⟩ | ⟨_, _, h1, _⟩ | ⟨_, _, cs, cp, rs, h1⟩
-      · rw [h0] at h; simp at h
-      · rw [h1] at h
-        simp only [List.mem_singleton, Prod.mk.injEq] at h
-        have : id = id' := by rw [h.1, hid]
+      have := own id' c hc h
+      subst this
+      exact Or.inl ⟨c, hc, Or.inl rfl, h⟩
+    · simp at h
+  | updateExtFail id' =>
+    simp only [step] at h
+    split at h
+    · rename_i c hc
+      split at h
+      · simp at h
+      · rename_i hx
+        have := own id' c hc h
         subst this
-        exact Or.inl ⟨c, hc, rfl, by rw [h1, ← h.2]; simp [hid]⟩
-      · rw [h1] at h
-        simp only [List.mem_singleton, Prod.mk.injEq] at h
-        have : id = id' := by rw [h.1, hid]
-        subst this
-        exact Or.inl ⟨c, hc, rfl, by rw [h1, ← h.2]; simp [hid]⟩
+        exact Or.inl ⟨c, hc, Or.inr ⟨rfl, by simpa using hx⟩, h⟩
     · simp at h
 
 end VncModel.Resize
